@@ -131,6 +131,15 @@ func (cl *Cluster) AddBackend(addr, slice, role string) *Backend {
 	return b
 }
 
+// handshakeCollations: the collation id in the login packet selects the session's character set.
+var handshakeCollations = map[byte][2]string{
+	8: {"latin1", "latin1_swedish_ci"}, 28: {"gbk", "gbk_chinese_ci"}, 33: {"utf8", "utf8_general_ci"}, 45: {"utf8mb4", "utf8mb4_general_ci"},
+	46: {"utf8mb4", "utf8mb4_bin"}, 63: {"binary", "binary"}, 83: {"utf8", "utf8_bin"}, 224: {"utf8mb4", "utf8mb4_unicode_ci"}, 255: {"utf8mb4", "utf8mb4_0900_ai_ci"},
+}
+
+// Kill closes the connection from the server side (wait_timeout, failover, an operator's KILL).
+func (c *Conn) Kill() { c.nc.Close() }
+
 func (c *Conn) snapshot() Snapshot {
 	s := Snapshot{DB: c.DB, Autocommit: c.Autocommit, InTx: c.InTx, Charset: c.Charset, Collation: c.Collation, Vars: map[string]string{}, UserVars: map[string]string{}}
 	for k, v := range c.Vars {
@@ -194,6 +203,9 @@ func (b *Backend) serve(nc *simnet.Conn) {
 		return
 	}
 	c.User, c.DB = login.User, login.DB
+	if cc, ok := handshakeCollations[login.Charset]; ok {
+		c.Charset, c.Collation = cc[0], cc[1]
+	}
 	if err := c.pc.WritePacket(myproto.OK(0, 0, c.status(), 0, "")); err != nil {
 		return
 	}
